@@ -129,15 +129,93 @@ def c_from_raw_var_bytes(it, recv, a):
     it.ctx.exits.append(("try", f"{outer.canon()} is None => Err(Error::NotEnoughBytes)"))
     it.ctx.exits.append(("err_if", VOpaque("ne", [VOpaque("len", [b]), VOpaque("some_of", [outer])]), "Error::NotEnoughBytes"))
     chunks = Sym(VOpaque("chunks_exact", [VOpaque("slice", [b, Sym("u64::SIZE"), "end"]), Sym("G1Affine::RAW_SIZE")]).canon())
-    pt = VOpaque("G1Affine::from_slice_unchecked", [Sym(chunks.path + "[*]")])
+    elem = Sym(chunks.path + "[*]")
+    pt = VOpaque("G1Affine::from_slice_unchecked", [elem])
     valid = VOpaque("and", [VOpaque("is_on_curve", [pt]), VOpaque("is_torsion_free", [pt])])
-    it.ctx.event("for_each_in_order", chunks.path, (), (("err_if", VOpaque("not", [valid]), "Error::PointMalformed"),))
+    # per point, in this order: (1) only the CANONICAL raw encoding (flag byte 0/1, both coordinates' limbs below the base-field modulus) may
+    # reach the unchecked dependency decoder - G1Affine::from_slice_unchecked takes limbs and flag as they come, and `subtle::Choice::from`
+    # debug-asserts the flag (dependency preconditions, DESIGN 3.3); (2) the decoded point is on the curve and in the subgroup
+    it.ctx.event("for_each_in_order", chunks.path, (), (("err_if", VOpaque("not", [VOpaque("raw_point_is_canonical", [elem])]), "Error::PointMalformed"),
+                                                        ("err_if", VOpaque("not", [valid]), "Error::PointMalformed"),))
     return VOk(VStruct("CommitKey", {"powers_of_g": VArr([VOpaque("for_each_pushed", [chunks, pt])], "vec")}))
 
 
+def c_from_slice_unchecked(it, recv, a):
+    """ASSUMED dependency contract (dusk-bls12_381 0.14.2 g1/dusk.rs): no check at all; REQUIRES flag byte <= 1 (debug assertion in
+    subtle::Choice::from) and reduced limbs for the result to be a canonical field element.  The requirement is met when the path has
+    already left with an error unless `raw_point_is_canonical(chunk)` (the crate's guard; its meaning is the Kani twin
+    kzg.raw_point_is_canonical)"""
+    c = a[0]
+    want = canon(VOpaque("not", [VOpaque("raw_point_is_canonical", [c])]))
+    seen = [e for e in it.ctx.exits if e[0] == "err_if" and canon(e[1]) == want]
+    if not seen and not getattr(it.ctx, "is_contract", False):
+        it.ctx.unmet = getattr(it.ctx, "unmet", []) + [f"G1Affine::from_slice_unchecked({canon(c)[:60]}) on bytes that were not checked to be the canonical raw encoding "
+                                                       "(flag byte <= 1, limbs below the modulus)"]
+    return VOpaque("G1Affine::from_slice_unchecked", [c])
+
+
 CONTRACTS["G1Affine::from_slice_unchecked"] = lambda it, recv, a: VOpaque("G1Affine::from_slice_unchecked", [a[0]])
-unit("kzg.CommitKey::from_raw_var_bytes", KEY, "CommitKey::from_raw_var_bytes", [("bytes", sym("bytes"))], c_from_raw_var_bytes,
-     vf.out_verify, trace_only=True, tracked=("powers_of_g", "point", "chunk", "point_is_valid"))
+
+
+def out_raw(res, args, ctx):
+    o = vf.out_verify(res, args, ctx)
+    o["unmet_dependency_preconditions"] = [] if getattr(ctx, "is_contract", False) else list(getattr(ctx, "unmet", []))
+    return o
+
+
+RAW_CK_SCENARIO = r"""
+#[test]
+fn __NAME__() {
+    // candidate failing inputs of the checked decoder: a prover's own bytes with (a) the infinity-flag byte of the first raw commit-key point
+    // set to 2, 3, 0x80, 0xff and (b) the x coordinate's limbs replaced by x + p (unreduced, same field element)
+    use crate::prelude::*;
+    use rand::rngs::StdRng;
+    use rand::SeedableRng;
+    #[derive(Default)] struct Empty;
+    impl Circuit for Empty { fn circuit(&self, _c: &mut Composer) -> Result<(), Error> { Ok(()) } }
+    fn be(b: &[u8], k: usize) -> usize { u64::from_be_bytes(b[8 * k..8 * k + 8].try_into().unwrap()) as usize }
+    let mut rng = StdRng::seed_from_u64(3);
+    let pp = PublicParameters::setup(1 << 5, &mut rng).unwrap();
+    let (prover, _v) = Compiler::compile::<Empty>(&pp, b"flag").unwrap();
+    let bytes = prover.to_bytes();
+    let at = 48 + be(&bytes, 0) + be(&bytes, 1) + 8;
+    let mut bad: Vec<String> = Vec::new();
+    for flag in [2u8, 3, 0x80, 0xff] {
+        let mut b = bytes.clone();
+        b[at + 96] = flag;
+        match std::panic::catch_unwind(|| Prover::try_from_bytes(&b).map(|_| ())) {
+            Err(_) => bad.push(format!("Prover::try_from_bytes PANICKED on infinity-flag byte {flag:#x}")),
+            Ok(Ok(())) => bad.push(format!("Prover::try_from_bytes ACCEPTED infinity-flag byte {flag:#x}")),
+            Ok(Err(_)) => {}
+        }
+    }
+    let p: [u64; 6] = [0xb9feffffffffaaab, 0x1eabfffeb153ffff, 0x6730d2a0f6b0f624, 0x64774b84f38512bf, 0x4b1ba7b6434bacd7, 0x1a0111ea397fe69a];
+    let mut b = bytes.clone();
+    let mut carry = 0u128;
+    for i in 0..6 {
+        let limb = u64::from_le_bytes(b[at + 8 * i..at + 8 * i + 8].try_into().unwrap());
+        let s = limb as u128 + p[i] as u128 + carry;
+        b[at + 8 * i..at + 8 * i + 8].copy_from_slice(&(s as u64).to_le_bytes());
+        carry = s >> 64;
+    }
+    if carry == 0 {
+        match std::panic::catch_unwind(|| Prover::try_from_bytes(&b).map(|_| ())) {
+            Err(_) => bad.push("Prover::try_from_bytes PANICKED on unreduced limbs".to_string()),
+            Ok(Ok(())) => bad.push("Prover::try_from_bytes ACCEPTED a commit-key point whose x limbs are x + p (non-canonical field element)".to_string()),
+            Ok(Err(_)) => {}
+        }
+    }
+    assert!(bad.is_empty(), "REPLAY-VIOLATION-REPRODUCED: {:?}", bad);
+}
+"""
+
+_ru = unit("kzg.CommitKey::from_raw_var_bytes", KEY, "CommitKey::from_raw_var_bytes", [("bytes", sym("bytes"))], c_from_raw_var_bytes,
+           out_raw, trace_only=True, tracked=("powers_of_g", "point", "chunk", "point_is_valid"))
+_ru.extra_contracts = {"G1Affine::from_slice_unchecked": c_from_slice_unchecked,
+                       "raw_point_is_canonical": lambda it, recv, a: VOpaque("raw_point_is_canonical", [a[0]])}
+_sc = {"what": "Prover::try_from_bytes on a prover's own bytes with the first raw commit-key point's infinity flag set to 2/3/0x80/0xff, and with its x limbs "
+               "replaced by x + p", "src": RAW_CK_SCENARIO}
+_ru.scenarios = {"unmet_dependency_preconditions": _sc, "transcript_log": _sc, "exits": _sc}
 
 
 # ------------------------------------------------------------------ AggregateProof::flatten (instances: k parts)
